@@ -106,6 +106,11 @@ Theorem C19_formula_text_survives : forall pfx cells,
 Proof. exact sheet_formulas_survive. Qed.
 
 (* ---------- ods ---------- *)
+(* [cs] ranges over every arrangement of the children of a string cell: paragraphs (literal text,
+   CDATA, text:s, text:tab, text:line-break, spans, phonetic guides, drawing objects anchored as
+   characters), an annotation, drawing objects anchored to the cell with whatever they hold
+   (images, shapes, text boxes with paragraphs of their own, groups nested to any depth), the
+   white space of an indented file between the children, comments *)
 Theorem C19_ods_space_paragraph_roundtrip : forall cname extra cs rest,
   cell_name_ok cname -> legal_extra extra = true -> legal_content cs = true ->
   ods_cell cname (ods_cell_attrs extra (OsContent cs)) (ods_cell_events cname (OsContent cs) ++ rest) =
@@ -124,6 +129,34 @@ Theorem C19_ods_encode_survives : forall s rest,
   ods_cell o_cell (ods_cell_attrs [] (OsContent (ods_encode s)))
            (ods_cell_events o_cell (OsContent (ods_encode s)) ++ rest) = Ok (OString s, [], rest).
 Proof. exact ods_encode_survives. Qed.
+
+(* what is not a paragraph of the cell — indentation, comments, the annotation, anchored drawing
+   objects and every paragraph inside them — contributes nothing; the reading of a phonetic guide
+   contributes nothing and its base what it holds; the layout (flat / indented, with or without
+   anchored objects) is irrelevant *)
+Theorem C19_ods_nonpara_contributes_nothing : forall cs1 c cs2,
+  is_para c = false -> content_text (cs1 ++ c :: cs2) = content_text (cs1 ++ cs2).
+Proof. exact ods_nonpara_contributes_nothing. Qed.
+
+Theorem C19_ods_ruby_text_contributes_nothing : forall ps1 st body ps2,
+  para_text (ps1 ++ ORubyText st body :: ps2) = para_text (ps1 ++ ps2).
+Proof. exact ods_ruby_text_contributes_nothing. Qed.
+
+Theorem C19_ods_ruby_is_its_base : forall st base rst body,
+  para_text (ORubyOpen st :: ORubyBaseOpen :: base ++ [ORubyBaseClose; ORubyText rst body; ORubyClose]) =
+  para_text base.
+Proof. exact ods_ruby_is_its_base. Qed.
+
+Theorem C19_ods_layout_independent : forall cname extra1 extra2 cs1 cs2 rest1 rest2,
+  cell_name_ok cname -> legal_extra extra1 = true -> legal_extra extra2 = true ->
+  legal_content cs1 = true -> legal_content cs2 = true ->
+  map para_text (paras_of cs1) = map para_text (paras_of cs2) ->
+  exists t,
+    ods_cell cname (ods_cell_attrs extra1 (OsContent cs1)) (ods_cell_events cname (OsContent cs1) ++ rest1)
+      = Ok (OString t, [], rest1) /\
+    ods_cell cname (ods_cell_attrs extra2 (OsContent cs2)) (ods_cell_events cname (OsContent cs2) ++ rest2)
+      = Ok (OString t, [], rest2).
+Proof. exact ods_layout_independent. Qed.
 
 (* ---------- binary formats: UTF-16 ---------- *)
 Theorem C19_utf16_roundtrip : forall s, Forall scalar s -> utf16_decode (utf16_encode s) = s.
@@ -279,16 +312,49 @@ Example C19_xlsx_nonvacuous :
 Proof. cbn zeta. repeat split; try (left; reflexivity); try (right; reflexivity); vm_compute; reflexivity. Qed.
 
 (* ods: an annotation, text:s with and without count, spans, a comment, CDATA sections (alone,
-   adjacent, inside a span), text:tab and text:line-break (also inside a span), an empty paragraph *)
+   adjacent, inside a span), text:tab and text:line-break (also inside a span), an empty paragraph;
+   indentation before, between and after the children, a comment between them, a text box
+   (draw:frame > draw:text-box > two paragraphs), a group shape inside a group shape each with a
+   paragraph, an image with an empty paragraph, a phonetic guide, a space alone between two spans
+   (content, not indentation), a frame anchored as a character inside a paragraph *)
 Example C19_ods_nonvacuous :
-  let cs := [CAnnot [Start o_p []; Text [110]; Start o_tab []; End o_tab; End o_p];
+  let frame := o_frame in let tbox := o_text_box in let grp := o_draw_g in let img := o_image in
+  let ind := [10; 32; 32] in
+  let cs := [CWs ind; CAnnot [Start o_p []; Text [110]; Start o_tab []; End o_tab; End o_p]; CWs ind;
              CPara [OSp (Some [51]); OLit [97; 32]; OSpanOpen [84]; OSp None; OCD [98; 60]; OTab; OSpanClose;
                     OSp (Some [48]); OOther; OCD [93; 93]; OCD [62]; OLit [9]; OBreak; OTab];
-             CPara []; CPara [OBreak; OCD [99]]] in
+             CComment; CPara []; CWs [10]; CPara [OBreak; OCD [99]];
+             CPara [OSpanOpen [84]; OLit [120]; OSpanClose; OLit [32]; OSpanOpen [84]; OLit [121]; OSpanClose;
+                    ORubyOpen [82]; ORubyBaseOpen; OLit [28450; 23383]; ORubyBaseClose;
+                    ORubyText (Some [82]) [Text [12363; 12435; 12376]]; ORubyClose;
+                    OShape frame [] [Start img []; Start o_p []; Text [105]; End o_p; End img]];
+             CWs ind;
+             CShape frame [([110], [49])] [Text ind; Start tbox []; Start o_p []; Text [66; 49]; End o_p;
+                                           Start o_p []; Text [66; 50]; End o_p; End tbox; Text ind];
+             CShape grp [] [Start grp []; Start o_p []; Text [103]; End o_p; End grp; Start o_p []; End o_p];
+             CShape frame [] [Start img []; Start o_p []; End o_p; End img]; CWs [10; 32]] in
   cell_name_ok o_cell /\ legal_extra [([115], [49])] = true /\ legal_content cs = true /\
   legal_ods_full o_covered (OsAttr [97] cs) = true /\
-  content_text cs = [32; 32; 32; 97; 32; 32; 98; 60; 9; 93; 93; 62; 9; 10; 9; 10; 10; 10; 99].
+  content_text cs = [32; 32; 32; 97; 32; 32; 98; 60; 9; 93; 93; 62; 9; 10; 9; 10; 10; 10; 99; 10;
+                     120; 32; 121; 28450; 23383] /\
+  existsb (fun c => negb (is_para c)) cs = true.
 Proof. cbn zeta. repeat split; try (left; reflexivity); vm_compute; reflexivity. Qed.
+
+(* the witnesses of the defects ODS-1 (anchored text box), ODS-3 (indented cell), ODS-4 (phonetic
+   guide) of notes/AUDIT2.md, at the event level: they read as S says — "abc" / the base *)
+Example C19_ods_former_witnesses :
+  let frame := o_frame in let tbox := o_text_box in
+  let abc := [97; 98; 99] in
+  let w1 := [CPara [OLit abc];
+             CShape frame [] [Start tbox []; Start o_p []; Text [66]; End o_p; Start o_p []; Text [67]; End o_p; End tbox]] in
+  let w3 := [CWs [10; 32; 32]; CPara [OLit abc]; CWs [10; 32]] in
+  let w4 := [CPara [ORubyOpen []; ORubyBaseOpen; OLit [28450; 23383]; ORubyBaseClose;
+                    ORubyText None [Text [12363; 12435; 12376]]; ORubyClose]] in
+  ods_cell o_cell (ods_cell_attrs [] (OsContent w1)) (ods_cell_events o_cell (OsContent w1)) = Ok (OString abc, [], []) /\
+  ods_cell o_cell (ods_cell_attrs [] (OsContent w3)) (ods_cell_events o_cell (OsContent w3)) = Ok (OString abc, [], []) /\
+  ods_cell o_cell (ods_cell_attrs [] (OsContent w4)) (ods_cell_events o_cell (OsContent w4)) = Ok (OString [28450; 23383], [], []) /\
+  legal_content w1 = true /\ legal_content w3 = true /\ legal_content w4 = true.
+Proof. cbn zeta. repeat split; vm_compute; reflexivity. Qed.
 
 (* the ST_Xstring layer on its boundary cases: what S says, and that M says the same through
    read_string / read_cell.  a = 97, CR = 13, LF = 10, _ = 95, x = 120 *)
@@ -401,6 +467,11 @@ Print Assumptions C19_formula_text_survives.
 Print Assumptions C19_ods_space_paragraph_roundtrip.
 Print Assumptions C19_text_survives_ods.
 Print Assumptions C19_ods_encode_survives.
+Print Assumptions C19_ods_nonpara_contributes_nothing.
+Print Assumptions C19_ods_ruby_text_contributes_nothing.
+Print Assumptions C19_ods_ruby_is_its_base.
+Print Assumptions C19_ods_layout_independent.
+Print Assumptions C19_ods_former_witnesses.
 Print Assumptions C19_utf16_roundtrip.
 Print Assumptions C19_wf_utf16_covered.
 Print Assumptions C19_lone_surrogate_replaced.
